@@ -44,10 +44,23 @@ func (l *DList[T]) Unshift(value T) {
 	head := l.DoubleNode
 
 	newNode.next = &head
-	l.prev = newNode
 
 	// Move the pointer to the new node.
 	l.DoubleNode = *newNode
+	l.relink()
+}
+
+// relink restores the prev pointers around the head after the head node has been replaced by a
+// copy: the copy lives at a new address, so the head's prev and the prev pointers of the two
+// nodes that follow it have to be pointed at the current nodes again.
+func (l *DList[T]) relink() {
+	l.prev = nil
+	if l.next != nil {
+		l.next.prev = &l.DoubleNode
+		if l.next.next != nil {
+			l.next.next.prev = l.next
+		}
+	}
 }
 
 // Append inserts a new node at the end of the doubly linked list.
@@ -91,6 +104,7 @@ func (l *DList[T]) InsertBefore(node *DoubleNode[T], value T) error {
 		newNode.next = &head
 		// Move the pointer to the new node.
 		l.DoubleNode = *newNode
+		l.relink()
 	}
 
 	return nil
@@ -158,6 +172,7 @@ func (l *DList[T]) Delete(node *DoubleNode[T]) error {
 	// Check if the node to be deleted is the head node.
 	if head.Value == node.Value {
 		l.DoubleNode = *head.next
+		l.relink()
 		return nil
 	}
 
@@ -191,6 +206,7 @@ func (l *DList[T]) Shift() *DoubleNode[T] {
 	} else {
 		head = head.next
 		l.DoubleNode = *head
+		l.relink()
 	}
 
 	return &node
